@@ -61,6 +61,7 @@ type Config struct {
 	OpenFindings map[string]bool // known-finding ids that are open
 	Trace        bool
 	Thorough     bool
+	CrossSolver  string // if set, every assertion query is re-asked to this solver (one-shot) and must agree
 }
 
 // Machine is one worker: term context, solver, globals and per-path state.
@@ -68,6 +69,7 @@ type Machine struct {
 	C       *Ctx
 	S       *Solver
 	S2      *Solver // one-shot fallback solver (lazily started)
+	X       *Solver // cross-check solver (lazily started)
 	Prog    *Program
 	Cfg     Config
 	globals map[*ssa.Global]*Value
@@ -96,6 +98,8 @@ type Machine struct {
 	decided   int
 	natives   map[string]interface{}
 	atoms     map[*Term]bool // atoms already decided on this path
+	mapReverse bool          // range over maps in reverse insertion order
+	mapFlips   int           // remaining individually reversed range statements (adversarial order)
 	facts     map[*Term]ival // interval facts implied by the path condition
 	rmemo     map[*Term]ival
 
@@ -108,6 +112,8 @@ type Machine struct {
 		FeasQueries, AssertQueries int
 		ConcQueries                int
 		Fallbacks                  int
+		CrossAsked, CrossAgreed    int
+		CrossSkipped               int
 		RangeDecided               int
 		ForkSites                  map[string]int
 	}
@@ -149,6 +155,9 @@ func (m *Machine) Close() {
 	m.S.Close()
 	if m.S2 != nil {
 		m.S2.Close()
+	}
+	if m.X != nil {
+		m.X.Close()
 	}
 }
 
@@ -613,10 +622,42 @@ func (m *Machine) Check(c *Term, what string) {
 		m.abort("violation", what)
 	}
 	r := m.query(m.C.Not(c), true)
+	if m.Cfg.CrossSolver != "" && m.pos >= len(m.tape) {
+		m.crossCheck(m.C.Not(c), r)
+	}
 	if r == Sat {
 		m.abort("violation", what)
 	}
 	m.assertPC(c)
+}
+
+// crossCheck re-asks pc ∧ q to a second solver in a fresh context; a different verdict makes the
+// run inconclusive (a timeout of the second solver is counted as skipped).
+func (m *Machine) crossCheck(q *Term, want Result) {
+	if m.X == nil {
+		x, err := NewSolver(m.Cfg.CrossSolver)
+		if err != nil {
+			m.abort("inconclusive", "cross solver: "+err.Error())
+		}
+		m.X = x
+	}
+	m.Stats.CrossAsked++
+	terms := append(append([]*Term{}, m.pc...), q)
+	got, _ := m.X.OneShot(terms, m.vars, 10000)
+	if m.X.Err() != nil {
+		m.X.Close()
+		m.X = nil
+		m.Stats.CrossSkipped++
+		return
+	}
+	if got == Unknown {
+		m.Stats.CrossSkipped++
+		return
+	}
+	if got != want {
+		m.abort("inconclusive", fmt.Sprintf("solver disagreement: %s says %v, %s says %v on %s", m.S.Name, want, m.Cfg.CrossSolver, got, q.String()))
+	}
+	m.Stats.CrossAgreed++
 }
 
 // ---------------------------------------------------------------------------------------
@@ -644,6 +685,8 @@ func (m *Machine) RunPath(fn *ssa.Function, item WorkItem) (out Outcome, sibling
 	m.atoms = map[*Term]bool{}
 	m.facts = map[*Term]ival{}
 	m.rmemo = map[*Term]ival{}
+	m.mapReverse = false
+	m.mapFlips = 0
 	m.forced, m.decided = 0, 0
 	mark := len(m.trail)
 	m.S.Push()
